@@ -253,6 +253,12 @@ class Explorer:
         self.capped = False
         self.end_digests = set()
         self.sample_traces = []
+        # optional state-graph bookkeeping (livelock detection: states from which no end state can be reached)
+        self.track_graph = False
+        self.edges = {}
+        self.terminal = set()
+        self.open_ends = set()  # states whose successors were not expanded (cap): treated as "may still terminate"
+        self.hist_of = {}
 
     def digest(self, world):
         if self.canon is None:
@@ -302,34 +308,71 @@ class Explorer:
         first = getattr(self, "first_filter", None)
         if first is not None:  # sharding: this explorer only takes the given first event
             evs0 = [e for e in evs0 if list(e) == list(first)]
-        stack = [(world0, None, evs0, 0, 0)]
+        stack = [(world0, None, evs0, 0, 0, d0)]
         self._end_or_continue(world0, None, stack[0][2], report)
+        if self.track_graph:
+            self.hist_of[d0] = None
+            if not evs0:
+                self.terminal.add(d0)
         while stack:
-            world, hist, events, idx, depth = stack.pop()
+            world, hist, events, idx, depth, dsrc = stack.pop()
             if idx >= len(events):
                 continue
-            stack.append((world, hist, events, idx + 1, depth))
+            stack.append((world, hist, events, idx + 1, depth, dsrc))
             ev = events[idx]
             for w2, choices in self.successors(world, ev):
                 self.stats["transitions"] += 1
                 h2 = (hist, (list(ev), choices))
                 spec.check_state(w2, ev, lambda key, what, w=w2, h=h2: report(key, what, w, h))
                 d = self.digest(w2)
+                if self.track_graph:
+                    self.edges.setdefault(dsrc, set()).add(d)
                 if d in self.seen:
                     self.stats["revisits"] += 1
                     continue
                 self.seen.add(d)
                 self.stats["states"] += 1
+                if self.track_graph:
+                    self.hist_of[d] = h2
                 if depth + 1 > self.stats["max_depth"]:
                     self.stats["max_depth"] = depth + 1
                 if self.max_states and self.stats["states"] >= self.max_states:
                     self.capped = True
+                    self.open_ends.add(d)
                     continue
                 evs2 = self._pick(enabled_events(w2, spec), depth + 1)
                 self._end_or_continue(w2, h2, evs2, report)
                 if evs2:
-                    stack.append((w2, h2, evs2, 0, depth + 1))
+                    stack.append((w2, h2, evs2, 0, depth + 1, d))
+                elif self.track_graph:
+                    self.terminal.add(d)
         return self.stats
+
+    def livelocked(self):
+        """States (digest, history) from which no end state (nor unexpanded state) is reachable: every continuation runs for ever.
+        Needs track_graph. Returns the shallowest such state first."""
+        rev = {}
+        for a, bs in self.edges.items():
+            for b in bs:
+                rev.setdefault(b, []).append(a)
+        ok = set(self.terminal) | set(self.open_ends)
+        todo = list(ok)
+        while todo:
+            b = todo.pop()
+            for a in rev.get(b, ()):
+                if a not in ok:
+                    ok.add(a)
+                    todo.append(a)
+        bad = [d for d in self.seen if d not in ok]
+
+        def depth(h):
+            n = 0
+            while h is not None:
+                h, n = h[0], n + 1
+            return n
+
+        bad.sort(key=lambda d: depth(self.hist_of.get(d)))
+        return [(d, self.hist_of.get(d)) for d in bad]
 
     def _pick(self, events, depth=0):
         if self.schedule == "all" or len(events) <= 1:
